@@ -66,7 +66,7 @@ def gen_cases(rng: random.Random, n: int, styles, kinds=None):
     from .props import c08
     out = []
     for k in range(n):
-        pool = list(kinds) if kinds else ["mask", "nonzero", "setitem", "setitem", "setitem_mask", "intindex", "cumsum", "where"]
+        pool = list(kinds) if kinds else ["mask", "nonzero", "setitem", "setitem", "setitem_mask", "intindex", "cumsum", "where", "trilu", "broadcast_arrays"]
         kind = pool[k % len(pool)]
         rank = rng.choice([1, 1, 2, 2, 3])
         shape = tuple(rng.choice([1, 2, 3, 4]) for _ in range(rank))
@@ -137,6 +137,44 @@ def gen_cases(rng: random.Random, n: int, styles, kinds=None):
                 return {"c": _data(rng, shp[0], "bool"), "a": ext(dtype, shp[1]), "b": ext(dtype, shp[2])}
             out.append(Case(kind, (kind, tuple(shp), style, dtype), ["c", "a", "b"], build,
                             {"y": f"tg_render where {CODE[dtype]}"}, ref, (concrete, shape, "static")))
+        elif kind == "trilu":
+            dt = rng.choice(INT_DTYPES[:-1])
+            rk = rng.choice([2, 2, 3])
+            tshape = tuple(rng.choice([1, 2, 3, 4]) for _ in range(rk))
+            tdims = decl_dims(style, tshape, "T")
+            upper = rng.random() < 0.5
+            kk = rng.choice([0, 0, 1, -1, 2, -3, 5])
+            def build(tdims=tdims, dt=dt, upper=upper, kk=kk):
+                x = ndx.array(shape=tdims, dtype=impl.dt(dt))
+                return {"x": x}, {"y": (ndx.triu if upper else ndx.tril)(x, k=kk)}
+            def ref(feeds, upper=upper, kk=kk):
+                return {"y": (np.triu if upper else np.tril)(feeds["x"], k=kk)}
+            def concrete(rng, sh, dt=dt):
+                info = np.iinfo(np.dtype(dt))
+                vals = [rng.choice([1, 2, 3, -1, 7, int(info.max), int(info.min)]) for _ in range(int(np.prod(sh)))]
+                return {"x": np.array([min(int(info.max), max(int(info.min), v)) for v in vals], dtype=dt).reshape(sh)}
+            out.append(Case(kind, (kind, rk, upper, kk, style, dt), ["x"], build,
+                            {"y": f"tg_render trilu {CODE[dt]} {int(upper)} {kk}"}, ref, (concrete, tshape, style)))
+        elif kind == "broadcast_arrays":
+            dt = rng.choice(INT_DTYPES)
+            nops = rng.choice([2, 2, 3])
+            def part(sh):
+                k = rng.randrange(0, len(sh) + 1)
+                return tuple((1 if rng.random() < 0.35 else d) for d in sh[len(sh) - k:])
+            shp = [part(shape) for _ in range(nops)]
+            dd = [s_ if style == "static" else tuple(None for _ in s_) for s_ in shp]
+            names = ["a", "b", "c"][:nops]
+            def build(dd=dd, dt=dt, names=names):
+                xs = [ndx.array(shape=d_, dtype=impl.dt(dt)) for d_ in dd]
+                rs = ndx.broadcast_arrays(*xs)
+                return dict(zip(names, xs)), {f"y{i}": r for i, r in enumerate(rs)}
+            def ref(feeds, names=names):
+                rs = np.broadcast_arrays(*[feeds[n_] for n_ in names])
+                return {f"y{i}": np.array(r) for i, r in enumerate(rs)}
+            def concrete(rng, sh, shp=shp, dt=dt, names=names):
+                return {n_: _data(rng, s_, dt) for n_, s_ in zip(names, shp)}
+            out.append(Case(kind, (kind, tuple(shp), style, dt), names, build,
+                            {f"y{i}": f"tg_render broadcast_arrays {CODE[dt]} {nops} {i}" for i in range(nops)}, ref, (concrete, shape, "static")))
         elif kind == "intindex":
             idt = rng.choice(INT_DTYPES[:-1])
             ishape = rng.choice([(), (0,), (1,), (3,), (2, 2)])
